@@ -243,7 +243,11 @@ Definition shape_ok (tbl : list entry) (ops : list opsig) (fuel : nat) (e : entr
     end
   end.
 
-Definition entry_fin_ok (tbl : list entry) (ops : list opsig) (fuel : nat) (K : list const) (e : entry) : bool :=
+Definition guards_in (K : list const) (e : entry) : bool :=
+  forallb (fun br => forallb (fun g => mem (snd g) K) (bguards br)) (ebranches e).
+
+Definition entry_fin_ok_on (names : list string) (tbl : list entry) (ops : list opsig) (fuel : nat)
+           (K : list const) (e : entry) : bool :=
   forallb (fun n =>
     forallb (fun l =>
       match bind (esig e) (build_call n l (repeat None (n + List.length l))) with
@@ -251,8 +255,14 @@ Definition entry_fin_ok (tbl : list entry) (ops : list opsig) (fuel : nat) (K : 
       | Some _ => forallb (fun fl => shape_ok tbl ops fuel e (build_call n l fl))
                           (all_lists (opts K) (n + List.length l))
       end)
-      (lists_upto (kwnames (esig e)) (List.length (kwnames (esig e)))))
+      (lists_upto names (List.length names)))
     (seq 0 (S (npos (esig e)))).
+(* all keyword sets over the method's own parameter names *)
+Definition entry_fin_ok (tbl : list entry) (ops : list opsig) (fuel : nat) (K : list const) (e : entry) : bool :=
+  entry_fin_ok_on (kwnames (esig e)) tbl ops fuel K e.
+(* calls without keywords only *)
+Definition entry_pos_ok (tbl : list entry) (ops : list opsig) (fuel : nat) (K : list const) (e : entry) : bool :=
+  guards_in K e && entry_fin_ok_on [] tbl ops fuel K e.
 
 (* methods with *args: what makes any number of further positionals behave
    like none (they end up, in order, at the end of the operator's *args) *)
@@ -277,9 +287,6 @@ Definition varpos_ok (ops : list opsig) (e : entry) : bool :=
          end
        | FSelf _ _ => false
        end) (ebranches e).
-
-Definition guards_in (K : list const) (e : entry) : bool :=
-  forallb (fun br => forallb (fun g => mem (snd g) K) (bguards br)) (ebranches e).
 
 Definition entry_ok (tbl : list entry) (ops : list opsig) (fuel : nat) (K : list const) (e : entry) : bool :=
   guards_in K e && entry_fin_ok tbl ops fuel K e
